@@ -35,6 +35,51 @@ def offset_form(t):
     return t, k
 
 
+def _dist_by_map(crate, can, dv):
+    """dv = (0..order).map(C).collect() where C(u) is 0 exactly when u equals the captured source parameter and isize::MAX
+    otherwise"""
+    IT = "core::iter::traits::iterator::Iterator::"
+    if not (dv[0] == "call" and dv[1] == IT + "collect" and dv[3]):
+        return False
+    m = dv[3][0]
+    if not (m[0] == "call" and m[1] == IT + "map" and len(m[3]) == 2):
+        return False
+    rng, clo = m[3]
+    if not (rng[0] == "agg" and rng[1] == "adt" and rng[2][1] == "Range" and const_is(rng[3][0], 0)
+            and rng[3][1][0] == "call" and rng[3][1][1].endswith("Order::order")):
+        return False
+    if not (clo[0] == "agg" and clo[1] == "closure" and len(clo[3]) == 1 and clo[3][0][0] == "addr"):
+        return False
+    # the capture is the parameter `s` (argument 2 of new)
+    cap = clo[3][0][1]
+    vals = {t for (var, ver), t in can.term_of.items() if var == cap and t[0] != "opq"}
+    if vals != {("arg", 2)} and cap != "L2":
+        return False
+    cl = crate.an(clo[2])
+    sws = [e for e in cl.events if e["k"] == "switch"]
+    rets = [e for e in cl.events if e["k"] == "return"]
+    if len(sws) != 1 or len(rets) != 1 or sws[0]["b"] != 0:
+        return False
+    d = sws[0]["discr"]
+    capv = ("mem", "A1.0*", ("e",), None)
+    if not (d[0] == "bin" and d[1] == "Eq" and {d[2], d[3]} == {("arg", 2), capv}):
+        return False
+    rv = rets[0]["val"]
+    if not (rv[0] == "phi" and len(rv) == 3):
+        return False
+    # value per edge of the switch: true (u == s) -> 0, false -> MAX
+    hb, var = rv[1], rv[2]
+    ins = dict(zip([pb for pb, _ in cl.cfg.pred[hb]], cl.phi_inputs(hb, var)))
+    vals = {}
+    for tg, lab in cl.cfg.succ[0]:
+        truth = lab[0] == "sw_other"       # Eq discriminant: the "0" target is false
+        x = tg
+        while x not in ins and len(cl.cfg.succ[x]) == 1:
+            x = cl.cfg.succ[x][0][0]
+        vals[truth] = ins.get(x)
+    return vals.get(True) is not None and const_is(vals[True], 0) and vals.get(False) is not None and const_is(vals[False], IMAX)
+
+
 def rule_relax_agree(crate, prop, tier):
     o = Obl("RELAX-AGREE")
     S = "graaf::algo::bellman_ford_moore::BellmanFordMoore"
@@ -279,8 +324,39 @@ def rule_fw_shape(crate, prop, tier):
             upd.append((ev, ab, val))
         else:
             init_w.append((ev, ab, val))
+    # the diagonal written row by row: for (i, row) in dist.chunks_exact_mut(order).enumerate() { row[i] = 0 }
+    chunk_diag = []
+    for ev in an.events:
+        if ev["k"] != "store" or not const_is(ev["val"], 0) or ev.get("addr") is None:
+            continue
+        a_ = ev["addr"]
+        if not (a_[0] == "addr" and len(a_) == 3 and isinstance(a_[2], tuple) and a_[2] and a_[2][0] == "elem"):
+            continue
+        row, i_ = a_[2][1], a_[2][2]
+        its = loop_items(an, fx, ev["b"])
+        if len(its) != 1:
+            continue
+        nev, item = its[0]
+        if row != mk_field(item, "1", 1) or i_ != mk_field(item, "0", 0):
+            continue
+        d = fx.iter_desc(nev)
+        if not (d and d != "CYCLE" and d[0] == "call" and d[1] == "core::iter::traits::iterator::Iterator::enumerate" and d[3]):
+            continue
+        ch = d[3][0]
+        if ch[0] == "site":
+            cev = fx.an_call_at(ch[1])
+            ch = ("call", cev["key"], (), tuple(cev["args"])) if cev is not None else ch
+        if not (ch[0] == "call" and ch[1] in ("slice::chunks_exact_mut", "slice::chunks_mut") and len(ch[3]) == 2 and ch[3][1] in Ns):
+            continue
+        src = ch[3][0]
+        while src[0] == "call" and src[3] and src[1] in ("alloc::vec::Vec::as_mut_slice", "core::ops::deref::DerefMut::deref_mut"):
+            src = src[3][0]
+        if src[0] in ("at", "addr") and src[1] == D:
+            chunk_diag.append((ev, nev))
+    for ev, nev in chunk_diag:
+        o.check(complete_scan(an, fx, nev), who, "F4-diagonal-all", "the diagonal loop does not cover every row", ev["span"])
     # F4 initialisation
-    o.check(len(diag) >= 1 and all(a == b for ev, (a, b) in diag), who, "F4-diagonal", "the diagonal is not set to 0 at (i, i)")
+    o.check((len(diag) >= 1 or chunk_diag) and all(a == b for ev, (a, b) in diag), who, "F4-diagonal", "the diagonal is not set to 0 at (i, i)")
     for ev, (a, b) in diag:
         its = loop_items(an, fx, ev["b"])
         o.check(len(its) == 1 and its[0][1] == a and complete_scan(an, fx, its[0][0]), who, "F4-diagonal-all",
